@@ -1206,6 +1206,12 @@ func (m *Memberlist) suspectNode(s *suspect) {
 
 	// If this is us we need to refute, otherwise re-broadcast
 	if state.Name == m.config.Name {
+		// Once we have begun leaving there is nothing to refute: bumping our
+		// incarnation here would make our own (already prepared) leave
+		// message stale and strand us alive with the leave flag set.
+		if m.hasLeft() {
+			return
+		}
 		m.refute(state, s.Incarnation)
 		m.logger.Printf("[WARN] memberlist: Refuting a suspect message (from: %s)", s.From)
 		return // Do not mark ourself suspect
@@ -1298,6 +1304,13 @@ func (m *Memberlist) deadNode(d *dead) {
 			m.refute(state, d.Incarnation)
 			m.logger.Printf("[WARN] memberlist: Refuting a dead message (from: %s)", d.From)
 			return // Do not mark ourself dead
+		}
+
+		// If we are leaving, only our own self-signed message announces
+		// the departure; somebody else's accusation arriving while we
+		// leave must not turn the graceful leave into a failure.
+		if d.Node != d.From {
+			return
 		}
 
 		// If we are leaving, we broadcast and wait
